@@ -45,6 +45,9 @@ def date_join(a, b, j):
         "zwischen": "zwischen " + a + " und " + b,
         "von": "von " + a + " bis " + b,
         "from": "from " + a + " to " + b,
+        # lower-bound word + upper-bound word
+        "from_until": "from " + a + " until " + b,
+        "ab_bis": "ab " + a + " bis " + b,
         # the joiner word written without blanks ('9to5', '9bis17', '5.8.bis16.8.')
         "to_glued": a + "to" + b,
         "bis_glued": a + "bis" + b,
@@ -75,6 +78,8 @@ def ctx_day(ctx, ts):
 def clock_text(h, m, variant):
     if variant == "digits":
         return str(h)
+    if variant == "oclock-end" and m is None:
+        return "{} o'clock".format(h)
     return "{}:{:02d}".format(h, m)
 
 
@@ -95,12 +100,12 @@ def plan(tier, seed):
     bounds = list(dict.fromkeys(bounds))
     xs = ["5pm", "17:30", "8.5.2018", "monday", "tomorrow", "12.5."]
     joins_clock = (JOINS if tier == "thorough" else ["-", " - ", "to", "bis", "between", "von"]) + ["to_glued", "bis_glued"]
-    variants = [("00", 0, 0), ("30-35", 30, 35), ("digits", 0, 0)]
+    variants = [("00", 0, 0), ("30-35", 30, 35), ("digits", 0, 0), ("oclock-end", 45, None)]
 
     def gen():
         for a in DATES:
             for b in DATES:
-                for j in JOINS + ["to_glued", "bis_glued"]:
+                for j in JOINS + ["to_glued", "bis_glued", "from_until", "ab_bis"]:
                     for style in (0, 1):
                         yield ("dates", date_join(dstr(a, style), dstr(b, style), j), (a.year, a.month, a.day), (b.year, b.month, b.day), j, TS)
         for ha in range(24):
@@ -111,8 +116,12 @@ def plan(tier, seed):
                             continue
                         if j.endswith("_glued") and vname == "30-35" and tier == "quick":
                             continue
+                        if vname == "oclock-end" and (j not in ("-", " - ", "to", "bis") or hb == 0):
+                            continue  # '<h>:45 to <h> o'clock': the end carries no minute of its own
                         ta = clock_text(ha, ma, vname)
                         tb = clock_text(hb, mb, vname)
+                        if mb is None:
+                            mb = 0
                         for cname, cprefix in CONTEXTS:
                             if cname in ("yearend", "leapday", "monthend") and (vname == "digits" or (tier == "quick" and j not in ("-", "bis"))):
                                 continue  # roll-over days: explicit clock notations (quick: two joiners)
@@ -126,10 +135,10 @@ def plan(tier, seed):
         dts = [(d, h, m) for d in DATES[:6] for (h, m) in ((8, 0), (9, 0), (9, 30), (18, 30), (19, 0))]
         for a in dts:
             for b in dts:
-                for j in ("-", "to", "bis", "until") if tier == "quick" else JOINS:
+                for j in ("-", "to", "bis", "until", "from_until", "ab_bis") if tier == "quick" else JOINS + ["from_until", "ab_bis"]:
                     ta = "{} {}:{:02d}".format(dstr(a[0], 0), a[1], a[2])
                     tb = "{} {}:{:02d}".format(dstr(b[0], 0), b[1], b[2])
-                    yield ("dtdt", date_join(ta, tb, j) if j in JOINS else ta + " " + j + " " + tb, (a[0].year, a[0].month, a[0].day, a[1], a[2]), (b[0].year, b[0].month, b[0].day, b[1], b[2]), j, TS)
+                    yield ("dtdt", date_join(ta, tb, j) if (j in JOINS or j in ("from_until", "ab_bis")) else ta + " " + j + " " + tb, (a[0].year, a[0].month, a[0].day, a[1], a[2]), (b[0].year, b[0].month, b[0].day, b[1], b[2]), j, TS)
         # part of day + clock range: the part of day moves hours below 12 into the afternoon (the code's convention for 'N in the afternoon')
         for pod, pm in (("nachmittags", True), ("afternoon", True), ("abends", True), ("evening", True), ("morgens", False), ("vormittags", False)):
             for ha in range(1, 13):
